@@ -221,13 +221,22 @@ func carryTemplate(c *core.Ctx, r *core.Report, fn *ssa.Function, k cell, what s
 		add, isAdd := x.V.(*ssa.BinOp)
 		okX := false
 		var term an.FV
+		var carryLoad *ssa.UnOp
 		if isAdd && add.Op == token.ADD {
 			l, rr := an.FV{V: add.X, F: x.F}.Resolve(nil), an.FV{V: add.Y, F: x.F}.Resolve(nil)
 			lc, rc := k.addrIs(l.V) && isRootFrame(l.F), k.addrIs(rr.V) && isRootFrame(rr.F)
 			okX = lc != rc
 			term = rr
+			raw := add.X
 			if rc {
 				term = l
+				raw = add.Y
+			}
+			// the load instruction that enters the amount due (when it sits in this function)
+			if x.F == nil || x.F.Parent == nil {
+				if u, isU := noConv(raw).(*ssa.UnOp); isU && u.Op == token.MUL {
+					carryLoad = u
+				}
 			}
 		}
 		if !okX {
@@ -236,8 +245,12 @@ func carryTemplate(c *core.Ctx, r *core.Report, fn *ssa.Function, k cell, what s
 			continue
 		}
 		carryTerms[st] = term
-		// the cell is read before it is overwritten
+		// the cell is read before it is overwritten: the read that enters the amount due (reads made after the update
+		// for diagnostics — a trace hook, a log line — do not take part in the carry)
 		for _, ld := range k.loads(fn) {
+			if carryLoad != nil && ld != carryLoad {
+				continue
+			}
 			for _, s2 := range stores {
 				if an.Dominates(s2, ld) {
 					ok = false
